@@ -58,7 +58,15 @@ func (s *scn) checkRouter(h uint64, txs []*pb.BxhTransaction, ref *blockResult) 
 	sort.Strings(ids)
 	for _, c := range ids {
 		ch := make(chan *pb.InterchainTxWrappers, 4)
-		if err := rt.GetInterchainTxWrappers(c, h, h, ch); err != nil {
+		err := func() (err error) {
+			defer func() {
+				if e := recover(); e != nil {
+					err = fmt.Errorf("panic: %v at %s", e, panicSite())
+				}
+			}()
+			return rt.GetInterchainTxWrappers(c, h, h, ch)
+		}()
+		if err != nil {
 			s.vio(s.prop, "pier-delivery", "unavailable", "block %d: the router cannot produce the delivery set of chain %s: %v", h, c, err)
 			continue
 		}
